@@ -381,15 +381,25 @@ func main() {
 	}
 	wg.Wait()
 	w := &cf.Writer{Dir: *out, Prefix: "cases_c07", Imports: "From SV Require Import C07.Model C07.Corr.", CaseType: "ccase", MismatchFn: "mismatches_c07", ShardSize: 100}
+	confirmed := map[string]bool{}
+	reruns := 0
 	for i, cs := range cases {
 		o := results[i]
 		m := monitor(cs, o)
-		if m != nil {
-			// timing-dependent behaviour counts only when it shows twice
-			o2 := runCase(cs)
-			if m2 := monitor(cs, o2); m2 == nil || m2.Signature != m.Signature {
+		if m != nil && !confirmed[m.Signature] {
+			// timing-dependent behaviour counts only when it shows twice; once a signature has been reproduced on some case,
+			// further cases showing it are not run again (a broken tree can make hundreds of cases hang)
+			if reruns >= 24 {
 				m = nil
-				o = o2
+			} else {
+				reruns++
+				o2 := runCase(cs)
+				if m2 := monitor(cs, o2); m2 == nil || m2.Signature != m.Signature {
+					m = nil
+					o = o2
+				} else {
+					confirmed[m.Signature] = true
+				}
 			}
 		}
 		w.Add(coqCase(cs, o), cf.Sidecar{Case: map[string]interface{}{"script": cs, "observed": slim(o)}, Kind: kinds[i] + ":" + trigKinds(cs), Nontrivial: nontrivial(cs, o), Monitor: m})
